@@ -192,10 +192,22 @@ impl<C: Suite> Model for M05<C> {
                 let parsed = SignatureShare::<C>::try_from(bytes.as_slice()).unwrap();
                 let v1 = relabelled.verify(&pks, msg).is_ok();
                 let v2 = pks.verify(&parsed, msg).is_ok();
+                // all shares relabelled, then recombined: whatever comes out must not verify for the key and message
+                // (and, presented honestly, must be the whole-key signature)
+                let relabel = |x: &SignatureShare<C>| match st.b {
+                    Scheme::Basic => SignatureShare::<C>::Basic(*x.as_raw_value()),
+                    Scheme::Aug => SignatureShare::<C>::MessageAugmentation(*x.as_raw_value()),
+                    Scheme::Pop => SignatureShare::<C>::ProofOfPossession(*x.as_raw_value()),
+                };
+                let all: Vec<SignatureShare<C>> = [0usize, 2].iter().map(|i| relabel(&shares[*i].sign(lib_scheme(st.a), msg).unwrap())).collect();
+                let v3 = match Signature::<C>::from_shares(&all) {
+                    Ok(sig) => sig.verify(&pk, msg).is_ok() || mk_sig::<C>(st.a, *sig.as_raw_value()).verify(&pk, msg).is_ok() && sig_scheme(&sig) != st.b,
+                    Err(_) => false,
+                };
                 if diag {
-                    Some(v1 && v2)
+                    Some(v1 && v2 && v3)
                 } else {
-                    Some(v1 || v2)
+                    Some(v1 || v2 || v3)
                 }
             }
             Kind::SigAsPop => {
